@@ -31,12 +31,13 @@ Definition wstep_shared (w : sworld) (i : nat) : sworld :=
   let '(g', d') := shared_step (fst w) (snd w i) in
   (g', fun j => if Nat.eqb j i then d' else snd w j).
 
-(* which package-level variables exist and who writes them: the only ones allowed are error
-   values, compiled regular expressions, the logger and the read-only page-size table *)
+(* which package-level variables exist and who writes them: the only ones allowed are never written and hold error
+   values (from the standard constructors or a constructor of the package that returns an error), compiled regular
+   expressions, constants, the logger and the read-only page-size table *)
 Definition allowed_global (row : string * string * string * list string) : bool :=
   let '(pkg, name, kind, writers) := row in
   match writers with
-  | [] => existsb (String.eqb kind) ["call:errors.New"; "call:NewDocumentError"; "call:regexp.MustCompile"; "call:NewLogger"]%string
+  | [] => existsb (String.eqb kind) ["call:errors.New"; "call:fmt.Errorf"; "call:regexp.MustCompile"; "returns:error"; "returns:*DocumentError"; "returns:*Logger"; "constant"]%string
           || (String.eqb name "predefinedSizes" && String.eqb kind "literal")
   | _ => false
   end.
